@@ -160,6 +160,7 @@ func runCheck(prop, tier string, seed int64, modelPath, selfPath, replayDir, out
 	defer modelPool.close()
 
 	seen := map[string]bool{}
+	caseOf := map[string]Case{} // family/key -> case, for shrinking
 	for _, fam := range families {
 		if fam.Prop != prop || (only != "" && fam.Name != only) {
 			continue
@@ -178,6 +179,7 @@ func runCheck(prop, tier string, seed int64, modelPath, selfPath, replayDir, out
 		for i, c := range cases {
 			reqs[i] = c.Req
 		}
+		nViolFam := len(res.Violations)
 		implOut := implPool.askAll(reqs)
 		var modelReqs []string
 		var modelIdx []int
@@ -321,6 +323,17 @@ func runCheck(prop, tier string, seed int64, modelPath, selfPath, replayDir, out
 			what := fmt.Sprintf("%d cases of this family were not run: the implementation had already timed out or crashed %d times", aborted, implPool.maxFails)
 			res.Violations = append(res.Violations, violation{fam.Name, "-", "oracle", what, "", "-"})
 		}
+		if len(res.Violations) > nViolFam {
+			byKey := map[string]Case{}
+			for _, c := range cases {
+				byKey[caseKey(c)] = c
+			}
+			for _, v := range res.Violations[nViolFam:] {
+				if c, ok := byKey[v.Key]; ok {
+					caseOf[v.Family+"/"+v.Key] = c
+				}
+			}
+		}
 		gnames := make([]string, 0, len(groups))
 		for g := range groups {
 			gnames = append(gnames, g)
@@ -349,6 +362,7 @@ func runCheck(prop, tier string, seed int64, modelPath, selfPath, replayDir, out
 			}
 		}
 	}
+	shrinkViolations(&res, caseOf, selfPath, modelPath, 3)
 	res.WallS = time.Since(start).Seconds()
 	b, _ := json.MarshalIndent(res, "", " ")
 	os.WriteFile(outPath, b, 0o644)
